@@ -190,6 +190,7 @@ MUTANTS = [
     M('parser:identifier:completed-as-literal', 'parser', ['C05'], 'identifier', 'm.complete(p, IDENTIFIER)', 'm.complete(p, LITERAL)'),
     M('lex:bitstring:underscore-flag-on-any-second-underscore', 'lex', ['C15'], "Cursor<'_>::double_quoted_string", "                    if prev_char == '_' {\n", "                    if prev_char == '_' || !only_ones_and_zeros {\n"),
     # (D39 pieces are sidecar-wrapped copies of /repo text: not addressable by the mutation table; exercised by tools/benign_battery.sh and the seeds)
+    M('astx:prefix:tilde-is-logical-not', 'astx', ['C05', 'C06'], 'ast::PrefixExpr::op_kind', 'T![~] => UnaryOp::Not,', 'T![~] => UnaryOp::LogicNot,'),
     # ---- LEX extents
     M('lex:line_comment:stops-at-space', 'lex', ['C15', 'C14'], "Cursor<'_>::line_comment", "{ c != '\\n' });", "{ c != '\\n' && c != ' ' });"),
     M('lex:eat_identifier:start-test-inverted', 'lex', ['C15'], "Cursor<'_>::eat_identifier", 'if !is_id_start(self.first()) {', 'if is_id_start(self.first()) {'),
